@@ -4,14 +4,18 @@
 // Theorems in lean/Mqtt/Properties/*.lean state that the regenerated
 // definitions equal the hand-written model functions.
 //
-// Anything outside the subset is fatal: the translator names the function and
-// the syntax node and exits non-zero (never a default, never a guess).
+// Anything outside the subset is an error: the translator names the function
+// and the syntax node (never a default, never a guess).  The error is confined
+// to the function it occurs in and the functions that call it: their
+// definitions are taken from the committed baseline translation
+// (extract/baseline/Xlate.lean), the failure is recorded in xlate_report.json
+// next to the output and the exit status is 4 (merge.go).  Without a baseline,
+// or with -strict, the error is fatal as before (exit 3, no output).
 //
-//	xlate <repo> <out.lean>
+//	xlate [-strict] [-baseline <file>] <repo> <out.lean>
 package main
 
 import (
-	"bytes"
 	"fmt"
 	"go/ast"
 	"go/build"
@@ -22,9 +26,18 @@ import (
 	"strings"
 )
 
+// xlateError is what die panics with; tryRoot (merge.go) recovers it.
+type xlateError struct{ msg string }
+
+// die: the function being translated (x.where) is outside the supported subset.
 func die(format string, a ...interface{}) {
+	panic(xlateError{fmt.Sprintf(format, a...)})
+}
+
+// fatal: usage and I/O errors.
+func fatal(format string, a ...interface{}) {
 	fmt.Fprintf(os.Stderr, "xlate: "+format+"\n", a...)
-	os.Exit(3)
+	os.Exit(exitFatal)
 }
 
 var constantOne = constant.MakeInt64(1)
@@ -112,11 +125,14 @@ type xlator struct {
 	pkgMaps    map[*types.Var]string
 	ifaces     map[string]*ifaceInfo
 	ifaceOrder []*ifaceInfo
-	out        strings.Builder
-	summary    []string
+	blocks     []*block // generated definitions in the order they were produced (merge.go)
 }
 
-func (x *xlator) emit(s string) { x.out.WriteString(s) }
+// emit appends one block of generated text: kind "func" (a translated function with its
+// auxiliary definitions), "type" (a structure), "var" (a package-level map read as a constant)
+func (x *xlator) emit(kind, name, text, summary string) {
+	x.blocks = append(x.blocks, &block{kind: kind, name: name, text: text, summary: summary})
+}
 
 func key(pkgPath, recv, name string) string { return pkgPath + " " + recv + " " + name }
 
@@ -249,7 +265,6 @@ func (x *xlator) translateDecl(pkg *pkgInfo, decl *ast.FuncDecl, fo *types.Func)
 	}
 	b.WriteString(f.binders(info.params))
 	fmt.Fprintf(&b, " : %s :=\n%s\n\n", f.resultType(), indent(f.body))
-	x.emit(b.String())
 	info.done = true
 	mode := "total"
 	if !info.pure {
@@ -264,7 +279,7 @@ func (x *xlator) translateDecl(pkg *pkgInfo, decl *ast.FuncDecl, fo *types.Func)
 	if len(info.inout) != 0 {
 		mode += ", returns written slice argument"
 	}
-	x.summary = append(x.summary, fmt.Sprintf("%s  ⇐  %s (%s)  [%s]", lean, goName, rel, mode))
+	x.emit("func", goName, b.String(), fmt.Sprintf("%s  ⇐  %s (%s)  [%s]", lean, goName, rel, mode))
 	return info
 }
 
@@ -769,8 +784,8 @@ func (x *xlator) pkgMap(f *fn, n ast.Node, o *types.Var) string {
 		parts = append(parts, "("+tmp.conv(kx, mt.Key(), kv)+", "+tmp.as(tmp.convVal(vx, mt.Elem(), kv), false, kv)+")")
 	}
 	name := x.pkgPrefix(o.Pkg()) + "." + leanIdent(o.Name())
-	x.emit(fmt.Sprintf("/-- Go: package-level `var %s` (%s), read as its initialiser: nothing in its package assigns it -/\ndef %s : %s := [%s]\n\n",
-		o.Name(), o.Pkg().Path(), name, x.leanType(o.Type(), false), strings.Join(parts, ", ")))
+	x.emit("var", o.Pkg().Name()+"."+o.Name(), fmt.Sprintf("/-- Go: package-level `var %s` (%s), read as its initialiser: nothing in its package assigns it -/\ndef %s : %s := [%s]\n\n",
+		o.Name(), o.Pkg().Path(), name, x.leanType(o.Type(), false), strings.Join(parts, ", ")), "")
 	x.pkgMaps[o] = name
 	return name
 }
@@ -860,63 +875,4 @@ var whitelist = []target{
 	{"sessions", "Ackqueue", "Ack"},
 	{"sessions", "Ackqueue", "Acked"},
 	{"sessions", "", "newAckqueue"},
-}
-
-func main() {
-	if len(os.Args) != 3 {
-		die("usage: xlate <repo> <out.lean>")
-	}
-	repo, outPath := strings.TrimRight(os.Args[1], "/"), os.Args[2]
-	x := &xlator{ld: newLoader(repo), allowed: map[string]bool{}, funcs: map[string]*fnInfo{},
-		structs: map[*types.Named]*structInfo{}, pkgMaps: map[*types.Var]string{}, ifaces: map[string]*ifaceInfo{}}
-	for _, t := range whitelist {
-		x.allowed[key(x.pkgPath(t), t.recv, t.name)] = true
-	}
-	for _, t := range whitelist {
-		path := x.pkgPath(t)
-		pkg := x.ld.load(path)
-		decl := pkg.findFunc(t.recv, t.name)
-		if decl == nil {
-			die("whitelisted function %s.%s.%s not found in %s (renamed or removed?)", t.pkg, t.recv, t.name, pkg.dir)
-		}
-		fo, ok := pkg.info.Defs[decl.Name].(*types.Func)
-		if !ok {
-			die("no type information for %s.%s.%s", t.pkg, t.recv, t.name)
-		}
-		x.where = t.pkg + "." + t.name
-		x.translate(fo, nil, nil)
-	}
-
-	var o strings.Builder
-	o.WriteString("/- GENERATED by /verif/extract/cmd/xlate from the Go sources of /repo — do not edit.\n\n")
-	o.WriteString("Lean definitions translated function by function from the Go source (see NOTES-xlate.md\n")
-	o.WriteString("for the supported subset and what the translator is trusted for).\n\n")
-	o.WriteString("Integer semantics: Go `int`, `int64`, `int32` are unbounded `Int` here (`Nat` for locals that\n")
-	o.WriteString("are only ever assigned sums/products/lengths of naturals; a difference `a - b` is always an\n")
-	o.WriteString("`Int`). Overflow and wrap-around of signed integers, and truncation by conversions between\n")
-	o.WriteString("signed widths, are NOT represented. `byte`, `uint16`, `uint32`, `uint64` are `UInt8` … `UInt64`\n")
-	o.WriteString("with exactly Go's wrap-around; `uint` is taken to be 64 bits wide. Slices are lists: capacity,\n")
-	o.WriteString("aliasing and the difference between a nil and an empty slice are not represented (slicing\n")
-	o.WriteString("beyond the length is a `panic` here even where Go would allow it up to the capacity).\n\n")
-	o.WriteString("Translated functions:\n")
-	for _, s := range x.summary {
-		o.WriteString("  " + s + "\n")
-	}
-	o.WriteString("-/\n")
-	o.WriteString("set_option linter.unusedVariables false\n\n")
-	o.WriteString("namespace Mqtt.Generated.Xlate\n\n")
-	o.WriteString(prelude)
-	o.WriteString("\n")
-	o.WriteString(x.ifaceDecls())
-	o.WriteString(x.out.String())
-	o.WriteString("end Mqtt.Generated.Xlate\n")
-
-	data := []byte(o.String())
-	old, err := os.ReadFile(outPath)
-	if err == nil && bytes.Equal(old, data) {
-		return // unchanged: keep lake's cache valid
-	}
-	if err := os.WriteFile(outPath, data, 0o644); err != nil {
-		die("%v", err)
-	}
 }
